@@ -114,4 +114,14 @@ FileWhy(bytes, track, res) ==
   ELSE IF ~p.canon THEN "not canonical"
   ELSE IF ~(p.fmt = 0 /\ p.div = BE16(res) /\ p.tracks = <<track>>) THEN "the file does not hold the recorded track"
   ELSE ""
+
+\* the same for a file of several tracks (recording through SMF.RecordFrom while the SMF gets other tracks):
+\* format 0 with one track, format 1 with more (SMF.Add's rule)
+FileWhyN(bytes, tracks, res) ==
+  LET p == Decode(bytes) IN
+  IF p.kind # "value" THEN "strict parse fails: " \o p.err
+  ELSE IF ~p.canon THEN "not canonical"
+  ELSE IF ~(p.fmt = (IF Len(tracks) > 1 THEN 1 ELSE 0) /\ p.div = BE16(res) /\ p.tracks = tracks)
+       THEN "the file does not hold the tracks of the SMF"
+  ELSE ""
 =============================================================================
